@@ -24,12 +24,12 @@ def model_post(exp, mo):
     return mo
 
 STATUS = {"Remaining": 1, "Elected": 2, "Eliminated": 3}
-QNAMES = {1: "get_elected", 2: "get_eliminated", 3: "get_remaining", 4: "get_ranking", 5: "get_status_df", 6: "get_profile"}
+QNAMES = {1: "get_elected", 2: "get_eliminated", 3: "get_remaining", 4: "get_ranking", 5: "get_status_df", 6: "get_profile", 7: "get_step"}
 
 
 def known_finding(case, kind, detail):
     d = str(detail)
-    if case["rule"] == "PluralityVeto" and ("get_profile" in d or "impure" in d or "history" in d):
+    if case["rule"] == "PluralityVeto" and ("get_profile" in d or "get_step" in d or "impure" in d or "history" in d):
         return "pv-replay-impure"
     if case["rule"] == "Alaska" and "Err(EKey)" in d:
         return "alaska-replay-redraw"
@@ -48,7 +48,7 @@ def gen_cases(rng, tier):
             continue
         qs = []
         for _ in range(rng.randint(4, 12)):
-            q = rng.choice([1, 2, 3, 4, 5, 6, 6])
+            q = rng.choice([1, 2, 3, 4, 5, 6, 6, 7])
             idx = rng.choice([0, 1, 2, 3, -1, -1, -2, -3, 5, -7, 1, 2])
             qs.append([q, idx])
         if rng.random() < 0.5:
@@ -129,13 +129,15 @@ def run_case(case):
             enc.append(vk.ranking_val(nm, a))
         elif q == 5:
             enc.append(S(status_val(nm, a)))
+        elif q == 7:
+            enc.append([vk.profile_val(nm, a[0]), vk.state_val(nm, a[1])])
         else:
             enc.append(vk.profile_val(nm, a))
     # a get_profile replay that fails midway has consumed an unknown number of draws: the model
     # cannot resynchronise the script after it, so the compared history stops at that query
     cut = len(case["queries"])
     for kq, ((q, i), a) in enumerate(zip(case["queries"], answers)):
-        if q == 6 and isinstance(a, Err) and -nst <= i <= nst - 1:
+        if q in (6, 7) and isinstance(a, Err) and -nst <= i <= nst - 1:
             cut = kq + 1
             break
     if cut < len(case["queries"]):
@@ -148,13 +150,13 @@ def run_case(case):
                       "queries": [list(q) for q in case["queries"][:cut]]})
     else:
         # PluralityVeto's get_profile mutates the object (known finding); compare the pure queries only
-        keep = [k for k, (q, i) in enumerate(case["queries"]) if q != 6]
+        keep = [k for k, (q, i) in enumerate(case["queries"]) if q not in (6, 7)]
         arg2 = list(arg)
         arg2[3] = [case["queries"][k] for k in keep]
         # the model needs the script of the run only
         s_run, _ = rules.script_from_log(nm, rec.log[:n_run_draws], order=list(prof.candidates))
         arg2[2] = s_run
-        if not any(q == 6 for q, i in case["queries"]):
+        if not any(q in (6, 7) for q, i in case["queries"]):
             model.append({"op": 41, "arg": arg2, "expect": [vk.states_val(nm, el.election_states), [enc[k] for k in keep]],
                           "what": "election + pure query history", "queries": arg2[3]})
     # ---- oracle
@@ -167,7 +169,7 @@ def run_case(case):
                 oracle.append(f"{QNAMES[q]}({i}) out of range did not raise IndexError: {a if isinstance(a, Err) else 'answer'}")
             continue
         if isinstance(a, Err):
-            if q != 6 or det:
+            if q not in (6, 7) or det:
                 oracle.append(f"{QNAMES[q]}({i}) raised {a}")
             continue
         r = i % nst
@@ -190,7 +192,11 @@ def run_case(case):
                 if row["Status"] != st:
                     oracle.append(f"status of {c} is {row['Status']}, records say {st}")
                     break
-        if q == 6 and det:
+        if q == 7:
+            if a[1] is not sts[r] and a[1] != sts[r]:
+                oracle.append(f"get_step({i}) did not return the recorded state of round {r}")
+            a = a[0]
+        if q in (6, 7) and det:
             remaining = {c for g in sts[r].remaining for c in g}
             if set(a.candidates) != remaining and not (not remaining and not a.ballots):
                 oracle.append(f"get_profile({i}) candidates {sorted(map(str, a.candidates))} are not the candidates remaining after round {r}")
@@ -208,6 +214,6 @@ def run_case(case):
             if k in seen and seen[k] != ce:
                 oracle.append(f"{QNAMES[q]}({i}) answered differently later in the history")
             seen[k] = ce
-    nontrivial = nst > 2 and any(q == 6 for q, i in case["queries"]) and any(i < 0 for q, i in case["queries"])
+    nontrivial = nst > 2 and any(q in (6, 7) for q, i in case["queries"]) and any(i < 0 for q, i in case["queries"])
     tags.append("deterministic" if det else "random-or-tiebroken")
     return {"model": model, "oracle": oracle, "tags": tags, "nontrivial": nontrivial}
